@@ -33,6 +33,11 @@ func DefaultIntrinsics() map[string]Intrinsic {
 		return inAlloc(r, st, c, a, false)
 	}
 	m[rtPkg+"/math.MulUintptr"] = inMulUintptr
+	m[rtPkg+".memhash"] = inMemhash
+	m[rtPkg+".fastrand"] = func(r *FnRun, st *State, c ssa.CallInstruction, a []Val) (Val, bool) {
+		r.E.Trusted["fastrand: returns an arbitrary uint32"] = true
+		return st.declare(r.freshName("rand"), BV(32, false)), true
+	}
 	for k, v := range extraIntrinsics {
 		m[k] = v
 	}
@@ -158,4 +163,23 @@ func MulOverflows(x, y Term) Term {
 		a, b = b, a
 	}
 	return Term{fmt.Sprintf("(umulovf%d %s %s)", x.Sort.W, a.S, b.S), BoolSort()}
+}
+
+// memhash(p, seed, size): uninterpreted function of the bytes hashed (trusted:
+// the hash depends only on the seed and the contents of [p, p+size)).
+func inMemhash(r *FnRun, st *State, c ssa.CallInstruction, a []Val) (Val, bool) {
+	r.E.Trusted["memhash(p, seed, n): a function of the seed and the n bytes at p only (uninterpreted)"] = true
+	if IntMode {
+		panic(unsupported("memhash in int mode"))
+	}
+	p, seed, n := a[0].(Term), a[1].(Term), a[2].(Term)
+	if v, ok := constVal(n); ok {
+		switch v.Int64() {
+		case 8:
+			return Term{app("mh64", Term{Select(st.memArr("M64"), p).S, BV(64, false)}, seed), BV(64, false)}, true
+		case 4:
+			return Term{app("mh32", Term{Select(st.memArr("M32"), p).S, BV(32, false)}, seed), BV(64, false)}, true
+		}
+	}
+	return Term{app("mhbytes", st.memArr("M8"), p, n, seed), BV(64, false)}, true
 }
